@@ -229,7 +229,10 @@ MANIFEST_ENTRY = {
             "(pre-loop factor per steps 0..8, loop count, what is sampled where, flags reaching Grid.coords and F.grid_sample, padding) "
             "is regenerated from core/flow.py by symbolic tracing (Gen/FlowAlg.v) and proved equal to the model; the model is run in Coq "
             "on exact rationals against expv / ExpFlow (+ inverse paths) for float32/float64, batches, every loop iteration j in [0,7].",
-    "note": "Partial: convergence of (I + H/2^k)^(2^k) to exp(H) and the second-order inverse consistency exp(v) o exp(-v) for smooth "
-            "fields are explored numerically on the implementation only (not proved). Trusted: Coq kernel, vm_compute, the model of "
+    "note": "Convergence as k grows: proved over the reals (Coquelicot; stdlib real-number axioms) for the scalar closed form "
+            "(1 + h/2^k)^(2^k) -> exp h and hence entrywise for every diagonal generator (C11_convergence_scalar, "
+            "C11_convergence_diagonal_partial). Partial: convergence for generators with off-diagonal / translation part (matrix "
+            "exponential proper) and the second-order inverse consistency exp(v) o exp(-v) for smooth fields are explored numerically on "
+            "the implementation only (not proved). The ExpFlow module is traced (arguments handed to expv on all four call paths). Trusted: Coq kernel, vm_compute, the model of "
             "F.grid_sample (Model/Sampler.v, validated by the correspondence), symtorch, float rounding outside the model.",
 }
